@@ -36,13 +36,6 @@ USERS = [LABEL, "sub", None]          # directories that may receive a foreign f
 NBYTES = 4                            # model-side size of a dump; the cut index 0..3 is symbolic
 MAXSTEP = 12                          # a save has at most 11 primitive steps
 
-PRELUDE = (
-    'Definition LOCS : list loc := [(Some "g"%string, "picklestorage"%string); (Some "g"%string, "recovery"%string); '
-    '(Some "sub"%string, "fn"%string); (None, "fn"%string)].\n'
-    'Definition DS : list string := ["g"%string; "sub"%string].\n'
-    'Definition USERS : list path := [(Some "g"%string, NUser "user.txt"%string); '
-    '(Some "sub"%string, NUser "user.txt"%string); (None, NUser "user.txt"%string)].\n')
-
 RULE = ("histories of 1-9 operations over four save locations (default <label>/picklestorage, <label>/recovery as an "
         "absolute Path, 'sub/fn' and the bare 'fn' as strings): saves of picklable / cloudpickle-only / unserialisable "
         "content with and without cloudpickle_fallback, each possibly interrupted at any primitive step (write cut at "
@@ -93,7 +86,7 @@ class _Proxy:
             tr.armed = self
         else:
             tr.count += 1
-            tr.emit("write " + rel)
+            tr.emit(("write", rel))
 
     def write(self, b):
         self.buf += bytes(b)
@@ -114,7 +107,7 @@ class _Proxy:
         self.real.write(bytes(self.buf))
         self.real.flush()
         self.done = True
-        self.tr.step("close " + self.rel)
+        self.tr.step(("close", self.rel))
 
     def close(self):
         self._finish()
@@ -154,10 +147,10 @@ class Tracer:
             return os.path.relpath(ap, self.root)
         return None
 
-    def emit(self, s):
-        self.events.append(s)
+    def emit(self, e):
+        self.events.append(list(e))
         if self.sink is not None:
-            os.write(self.sink, (s + "\n").encode())
+            os.write(self.sink, (json.dumps(list(e)) + "\n").encode())
 
     def step(self, s):
         if self.crash is not None and self.count == self.crash[0]:
@@ -176,7 +169,7 @@ class Tracer:
             def f(p, *a, **k):
                 r = tr.rel(p)
                 if r is not None:
-                    tr.step(verb + " " + r)
+                    tr.step((verb, r))
                 return o[name](p, *a, **k)
             return f
 
@@ -184,21 +177,21 @@ class Tracer:
             def f(a, b, *x, **k):
                 ra, rb = tr.rel(a), tr.rel(b)
                 if ra is not None or rb is not None:
-                    tr.step(f"rename {ra} {rb}")
+                    tr.step(("rename", ra, rb))
                 return o[name](a, b, *x, **k)
             return f
 
         def rmdir(p, *a, **k):
             r = tr.rel(p)
             if r is not None:
-                tr.emit("rmdir " + r)       # same primitive step as the scan that found it empty
+                tr.emit(("rmdir", r))       # same primitive step as the scan that found it empty
             return o["rmdir"](p, *a, **k)
 
         def scan(name):
             def f(p=".", *a, **k):
                 r = tr.rel(p)
                 if r is not None:
-                    tr.step("scan " + r)
+                    tr.step(("scan", r))
                 return o[name](p, *a, **k)
             return f
 
@@ -206,7 +199,7 @@ class Tracer:
             r = tr.rel(file)
             if r is None or not any(c in mode for c in "wax+"):
                 return tr.orig_open(file, mode, *a, **k)
-            tr.step("create " + r)
+            tr.step(("create", r))
             return _Proxy(tr, tr.orig_open(file, mode, *a, **k), r)
 
         os.mkdir = one("mkdir", "mkdir")
@@ -285,10 +278,70 @@ def _status(p):
         return "partial"
 
 
-def _snapshot(root):
+def _universe(case):
+    """the part of the directory tree this history can touch: (locations, sub-directories, directories whose
+    foreign file is watched), each in the fixed order of LOCS / DIRS / USERS"""
+    used, touched = set(), set()
+    for op in case["ops"]:
+        if op[0] in ("save", "load", "delete"):
+            used.add(op[1])
+        elif op[0] == "ctor":
+            used.add("default")
+        elif op[0] == "touch":
+            touched.add(op[1])
+    locs = [l for l in LOCS if l in used]
+    dd = {LOC_DIR[l] for l in locs} | touched
+    return locs, [d for d in DIRS if d in dd], [d for d in USERS if d in dd]
+
+
+VERBS = {"mkdir": 1, "create": 2, "write": 3, "close": 4, "rename": 5, "unlink": 6, "scan": 7, "rmdir": 8}
+SUFFIXES = (".pckl", ".cpckl", ".pckl.tmp", ".cpckl.tmp")
+
+
+def _codes(uni):
+    """relative path -> number, as Store.pcode / Store.dcode count them"""
+    locs, dirs_, _ = uni
+    files, dirs = {}, {".": 1}
+    for i, d in enumerate(dirs_):
+        dirs[d] = 2 + i
+    for i, loc in enumerate(locs):
+        for j, suffix in enumerate(SUFFIXES):
+            d = LOC_DIR[loc]
+            files[(d + "/" if d else "") + LOC_STEM[loc] + suffix] = 10 * (i + 1) + j
+    return files, dirs
+
+
+def _encode(trace, uni):
+    """events as numbers verb*10000 + a*100 + b; anything outside the universe stays readable"""
+    files, dirs = _codes(uni)
+    out = []
+    for e in trace:
+        verb, args = e[0], e[1:]
+        table = dirs if verb in ("mkdir", "scan", "rmdir") else files
+        if all(a in table for a in args):
+            out.append(VERBS[verb] * 10000 + table[args[0]] * 100 + (table[args[1]] if len(args) > 1 else 0))
+        else:
+            out.append(" ".join(str(x) for x in e))
+    return out
+
+
+def decode(code, uni):
+    """inverse of _encode, for reading replay files"""
+    if not isinstance(code, int):
+        return code
+    files, dirs = _codes(uni)
+    verb = {v: k for k, v in VERBS.items()}[code // 10000]
+    table = dirs if verb in ("mkdir", "scan", "rmdir") else files
+    inv = {v: k for k, v in table.items()}
+    a, b = (code // 100) % 100, code % 100
+    return " ".join([verb, inv.get(a, "?")] + ([inv.get(b, "?")] if b else []))
+
+
+def _snapshot(root, uni):
     root = Path(root)
+    locs, dirs_, users_ = uni
     known_paths, per_loc = set(), []
-    for loc in LOCS:
+    for loc in locs:
         d = root / LOC_DIR[loc] if LOC_DIR[loc] else root
         stem = LOC_STEM[loc]
         row = []
@@ -306,13 +359,13 @@ def _snapshot(root):
         except Exception:
             row.append("Corrupt")
         per_loc.append(row)
-    dirs = [(root / d).is_dir() for d in DIRS]
+    dirs = [(root / d).is_dir() for d in dirs_]
     users = []
-    for d in USERS:
+    for d in users_:
         p = (root / d if d else root) / USER
         known_paths.add(str(p))
         users.append(p.exists())
-    known_paths.update(str(root / d) for d in DIRS)
+    known_paths.update(str(root / d) for d in dirs_)
     extras = sorted(str(p.relative_to(root)) for p in root.rglob("*") if str(p) not in known_paths)
     snap = [per_loc, dirs, users]
     if extras:
@@ -348,7 +401,7 @@ def _crashed_save(node, fn, kw, root, crash):
     _, status = os.waitpid(pid, 0)
     code = os.waitstatus_to_exitcode(status)
     res = {0: "crashed", 7: "ok", 8: "OSError", 6: "SaveError"}.get(code, f"child-exit-{code}")
-    return res, b"".join(chunks).decode().split("\n")[:-1]
+    return res, [json.loads(x) for x in b"".join(chunks).decode().split("\n")[:-1]]
 
 
 def run_impl(case):
@@ -356,6 +409,7 @@ def run_impl(case):
     old = os.getcwd()
     os.chdir(root)
     out = []
+    uni = _universe(case)
     try:
         for op in case["ops"]:
             k = op[0]
@@ -376,7 +430,7 @@ def run_impl(case):
                         except Exception:
                             res = "SaveError"
                     trace = tr.events
-                out.append(["save", res, trace, _snapshot(root)])
+                out.append(["save", res, _encode(trace, uni), _snapshot(root, uni)])
             elif k == "load":
                 _, loc, cls, w = op
                 node = _make(cls, w)
@@ -385,7 +439,7 @@ def run_impl(case):
                     res = "ok"
                 except Exception as e:
                     res = _exc(e)
-                out.append(["load", res, [_cname(node), _state(node)], _snapshot(root)])
+                out.append(["load", res, [_cname(node), _state(node)], _snapshot(root, uni)])
             elif k == "ctor":
                 _, cls, dele, auto = op
                 kw = dict(delete_existing_savefiles=bool(dele), autoload="pickle" if auto else None)
@@ -397,7 +451,7 @@ def run_impl(case):
                     except Exception as e:
                         res = _exc(e)
                 st = [_cname(node), _state(node)] if node is not None else [cls, 0]
-                out.append(["ctor", res, st, tr.events, _snapshot(root)])
+                out.append(["ctor", res, st, _encode(tr.events, uni), _snapshot(root, uni)])
             elif k == "delete":
                 node = _make("A")
                 with Tracer(root) as tr:
@@ -406,17 +460,43 @@ def run_impl(case):
                         res = "ok"
                     except Exception as e:
                         res = _exc(e)
-                out.append(["delete", res, tr.events, _snapshot(root)])
+                out.append(["delete", res, _encode(tr.events, uni), _snapshot(root, uni)])
             elif k == "touch":
                 d = Path(root) / op[1] if op[1] else Path(root)
                 d.mkdir(exist_ok=True)
                 (d / USER).write_text("mine")
-                out.append(["touch", _snapshot(root)])
+                out.append(["touch", _snapshot(root, uni)])
             else:
                 raise ValueError(op)
     finally:
         os.chdir(old)
         shutil.rmtree(root, ignore_errors=True)
+    prev = []                                   # an unchanged snapshot is printed as "="
+    for o in out:
+        snap = o[-1]
+        if _norm(snap) == prev:
+            o[-1] = "="
+        prev = _norm(snap)
+    return out
+
+
+def _norm(x):
+    if isinstance(x, bool):
+        return int(x)
+    if isinstance(x, list):
+        return [_norm(e) for e in x]
+    return x
+
+
+def _expand(obs):
+    """undo the "=" compression"""
+    out, prev = [], None
+    for o in obs:
+        o = list(o)
+        if o[-1] == "=":
+            o[-1] = prev
+        prev = o[-1]
+        out.append(o)
     return out
 
 
@@ -452,7 +532,9 @@ def op_coq(op):
 
 
 def model_term(case):
-    return "obs_run LOCS DS USERS " + cl(op_coq(o) for o in case["ops"])
+    locs, dirs_, users_ = _universe(_tolist(case))
+    return ("obs_run " + cl(_cloc(l) for l in locs) + " " + cl(cs(d) for d in dirs_) + " "
+            + cl(f"({_cdir(d)}, NUser {cs(USER)})" for d in users_) + " " + cl(op_coq(o) for o in case["ops"]))
 
 
 # ---- generators --------------------------------------------------------------------------------------
@@ -531,7 +613,7 @@ def generate(ctx):
     rng = ctx.rng
     fam = _family(["default"] if ctx.quick else LOCS)
     if ctx.quick:
-        fam = rng.sample(fam, 330) + rng.sample(_family(["flat", "rec", "sub"]), 90)
+        fam = fam + rng.sample(_family(["flat", "rec", "sub"]), 120)
     cases, seen = [], set()
     for c in fam:
         k = json.dumps(c, sort_keys=True)
@@ -567,11 +649,14 @@ def _judge(case, obs):
     bad = []
     if not isinstance(obs, list) or len(obs) != len(case["ops"]):
         return [("driver", f"driver: observation does not match the op list: {str(obs)[:200]}", 0, None)]
-    exp = {loc: None for loc in LOCS}            # per location: (class, state) of the last completed save
+    uni = _universe(case)
+    locs = uni[0]
+    obs = _expand(obs)
+    exp = {loc: None for loc in locs}            # per location: (class, state) of the last completed save
     prev_snap = None
     for idx, (op, o) in enumerate(zip(case["ops"], obs)):
         k, snap = op[0], o[-1]
-        rows = dict(zip(LOCS, snap[0]))
+        rows = dict(zip(locs, snap[0]))
         where = f"op {idx} {json.dumps(op)}"
         if len(snap) > 3:
             bad.append(("stray-file", f"stray-file: {where} left unexpected files {snap[3]}", idx, None))
@@ -608,7 +693,7 @@ def _judge(case, obs):
                 _, cls, dele, auto = op
                 loc, w = "default", 0
                 if dele:
-                    bad += _judge_delete(loc, rows, snap, prev_snap, "ok" if o[1] != "OSError" else "OSError", where, idx)
+                    bad += _judge_delete(uni, loc, rows, snap, prev_snap, "ok" if o[1] != "OSError" else "OSError", where, idx)
                     exp[loc] = None
             res, st = o[1], o[2]
             e = exp[loc] if (k == "load" or auto) else None
@@ -625,11 +710,11 @@ def _judge(case, obs):
                             f"so {want_res} and node {want_st} was due", idx, None))
         elif k == "delete":
             loc = op[1]
-            bad += _judge_delete(loc, rows, snap, prev_snap, o[1], where, idx)
+            bad += _judge_delete(uni, loc, rows, snap, prev_snap, o[1], where, idx)
             exp[loc] = None
         # in every state: nothing partial where load looks, has_saved_content and load agree with the
         # last completed save, every other location untouched
-        for loc in LOCS:
+        for loc in locs:
             r = rows[loc]
             if "partial" in (r[0], r[1]):
                 bad.append(("partial-final", f"partial-final: {where} leaves a partial file under a name load reads "
@@ -644,31 +729,31 @@ def _judge(case, obs):
     return bad
 
 
-def _dir_files(snap, d):
+def _dir_files(uni, snap, d):
     """what the snapshot shows inside directory d: [(loc, suffix index)] + foreign file"""
-    rows = dict(zip(LOCS, snap[0]))
-    found = [(loc, j) for loc in LOCS if LOC_DIR[loc] == d for j in range(4) if rows[loc][j] != 0]
-    user = snap[2][USERS.index(d)]
+    rows = dict(zip(uni[0], snap[0]))
+    found = [(loc, j) for loc in uni[0] if LOC_DIR[loc] == d for j in range(4) if rows[loc][j] != 0]
+    user = snap[2][uni[2].index(d)]
     return found, user
 
 
-def _judge_delete(loc, rows, snap, prev_snap, res, where, idx):
+def _judge_delete(uni, loc, rows, snap, prev_snap, res, where, idx):
     bad = []
     d = LOC_DIR[loc]
     left = [j for j in range(4) if rows[loc][j] != 0]
-    found, user = _dir_files(snap, d)
+    found, user = _dir_files(uni, snap, d)
     if res != "ok":
         root_empty = d is None and not found and not user and not any(snap[1])
         bad.append(("delete-raised", f"delete-raised: {where} raised {res}", idx,
                     "S25-rmdir-cwd" if root_empty and res == "OSError" else None))
     if left:
         only_tmp = all(j >= 2 for j in left)
-        before = dict(zip(LOCS, prev_snap[0]))[loc] if prev_snap is not None else [0] * 6
+        before = dict(zip(uni[0], prev_snap[0]))[loc] if prev_snap is not None else [0] * 6
         stale = only_tmp and all(before[j] != 0 for j in left)
         bad.append(("delete-leaves-files", f"delete-leaves-files: {where} leaves "
                     f"{[['.pckl', '.cpckl', '.pckl.tmp', '.cpckl.tmp'][j] for j in left]} of {loc} behind", idx,
                     "S24-stale-tmp-survives-delete" if stale else None))
-    if d is not None and not found and not user and snap[1][DIRS.index(d)]:
+    if d is not None and not found and not user and snap[1][uni[1].index(d)]:
         bad.append(("delete-leaves-empty-dir", f"delete-leaves-empty-dir: {where} leaves the emptied directory {d}", idx, None))
     return bad
 
